@@ -1,8 +1,10 @@
-import flags_check, latency_check, conn_check, locks_check
+import flags_check, latency_check, conn_check, locks_check, auth_check, receipt_check
 
 CHECKS = {
     "C08": conn_check.run,
     "C09": locks_check.run,
+    "C15": auth_check.run,
     "C17": flags_check.run,
     "C18": latency_check.run,
+    "C19": receipt_check.run,
 }
